@@ -301,7 +301,7 @@ def make_cigar(rng, length, allow_lead_clip, allow_trail_clip):
     return cig
 
 
-def synth_read(rng, ref_upper, target, meth, mate, rev, a, b, cigar, qual_style, keep_positions, err):
+def synth_read(rng, ref_upper, target, meth, mate, rev, a, b, cigar, qual_style, keep_positions, err, n_positions=()):
     seq, p = [], a
     conv = 'T' if target == 'C' else 'A'
     for op, n in cigar:
@@ -310,6 +310,8 @@ def synth_read(rng, ref_upper, target, meth, mate, rev, a, b, cigar, qual_style,
                 rb = ref_upper[p]
                 if p in keep_positions:
                     base = rb if rb in 'ACGT' else 'A'
+                elif rb == target and p in n_positions:
+                    base = 'N'                                       # the sequencer's N exactly on a callable base
                 elif rb == target:
                     base = conv if p in meth else target
                     x = rng.random()
@@ -372,8 +374,16 @@ def random_molecule(rng, k):
     err = rng.choice([0.0, 0.0, 0.03, 0.1])
     nfr = rng.choice([1, 1, 1, 2, 2, 3, 4])
     r1_cigar = make_cigar(rng, r1b - r1a, allow_lead_clip=rev and not motif, allow_trail_clip=not rev and not motif)
+    # N calls ON target positions: in 15% of the molecules all fragments but one show N (both mates) at a third of the
+    # targets, so the uninformative fragments outnumber the informative one (N never votes: the one fragment decides)
+    n_pos, n_frags = set(), set()
+    if rng.random() < 0.15:
+        nfr = max(nfr, 3)
+        n_pos = set(p for p in range(n) if ref_upper[p] == target and p not in keep and rng.random() < 0.35)
+        n_frags = set(rng.sample(range(nfr), nfr - 1))
     frags = []
-    for _ in range(nfr):
+    for fidx in range(nfr):
+        npos = n_pos if fidx in n_frags else ()
         qs1, qs2 = rng.choice([0, 1, 2, 2, 3]), rng.choice([0, 1, 2, 2, 3])
         # the 3' end of read 1 may differ between fragments; the 5' end (cut site) is shared
         if rng.random() < 0.5 and r1b - r1a > 5 and not motif:
@@ -382,7 +392,7 @@ def random_molecule(rng, k):
             c1 = [[0, b1 - a1]]
         else:
             a1, b1, c1 = r1a, r1b, r1_cigar
-        r1 = synth_read(rng, ref_upper, target, meth, 1, rev, a1, b1, [list(c) for c in c1], qs1, keep, err)
+        r1 = synth_read(rng, ref_upper, target, meth, 1, rev, a1, b1, [list(c) for c in c1], qs1, keep, err, npos)
         if rng.random() < 0.1:
             frags.append({'reads': [r1]})
             continue
@@ -391,7 +401,7 @@ def random_molecule(rng, k):
         a2, b2 = interval_choices(rng, n, [a1, b1, 0, n])
         c2 = make_cigar(rng, b2 - a2, allow_lead_clip=True, allow_trail_clip=True)
         # 3%: both mates on the same strand (not an inward-facing pair: such a fragment has no safe span and must not vote)
-        r2 = synth_read(rng, ref_upper, target, meth, 2, rev if rng.random() < 0.03 else not rev, a2, b2, c2, qs2, set(), err)
+        r2 = synth_read(rng, ref_upper, target, meth, 2, rev if rng.random() < 0.03 else not rev, a2, b2, c2, qs2, set(), err, npos)
         frags.append({'reads': [r1, r2]})
     mol = {'src': 'random', 'cls': cls, 'conv': conv, 'contig': 'r%d' % k, 'ref': ref_s, 'frags': frags,
            'tags': {'lh': 'TA'} if cls == 'chic' else {}, 'refobj': rng.choice(['fasta', 'cached']),
